@@ -402,6 +402,51 @@ Section Structure.
       unfold fetch_mime, fetch_body. rewrite (get_subpart_leaf_1 c Hsubs). subst n.
       apply Hsplit. exact Hwf.
   Qed.
+  (* every multipart node has at least one parsed sub-part *)
+  Inductive no_empty_multi : content -> Prop :=
+  | nem_node hl bl k subs :
+      (forall b, k = CtMulti b -> subs <> []) -> Forall no_empty_multi subs ->
+      no_empty_multi (Node hl bl k subs).
+
+  Lemma bs_go_map : forall subs bs,
+    bs_go subs = Some bs ->
+    Forall (fun s => forall b, body_structure d s = Some b -> bs_printed b = b) subs ->
+    map bs_printed bs = bs /\ length bs = length subs.
+  Proof.
+    induction subs as [|s r IH]; intros bs H HF; cbn [bs_go] in H.
+    - injection H as <-. split; reflexivity.
+    - fold bs_go in H.
+      destruct (body_structure d s) as [b0|] eqn:Eb; [|discriminate].
+      destruct (bs_go r) as [bs0|] eqn:Er; [|discriminate].
+      injection H as <-. inversion HF as [|? ? Hs Hr]; subst.
+      destruct (IH _ eq_refl Hr) as (IH1 & IH2).
+      cbn [map length]. rewrite (Hs _ Eb), IH1, IH2. split; reflexivity.
+  Qed.
+
+  (* then nothing is added when the structure is printed *)
+  Lemma bs_printed_id : forall c,
+    wf d c -> no_empty_multi c -> forall b, body_structure d c = Some b -> bs_printed b = b.
+  Proof.
+    induction c as [hl bl k subs IH] using content_ind'.
+    intros Hwf Hne b Hb.
+    inversion Hwf as [? ? ? ? _ Hshape Hsubs]; subst.
+    inversion Hne as [? ? ? ? Hk Hnes]; subst.
+    cbn [body_structure] in Hb. fold (bs_go) in Hb.
+    assert (HF : Forall (fun s => forall b, body_structure d s = Some b -> bs_printed b = b) subs).
+    { rewrite Forall_forall in *. intros s Hs. apply IH; auto. }
+    destruct k as [| |bnd|].
+    - injection Hb as <-. reflexivity.
+    - injection Hb as <-. reflexivity.
+    - destruct (bs_go subs) as [bs|] eqn:Eg; [|discriminate]. cbn [option_map] in Hb.
+      injection Hb as <-. destruct (bs_go_map _ _ Eg HF) as (Hm & Hl).
+      destruct bs as [|b0 bs'].
+      + destruct subs; [exfalso; eapply Hk; reflexivity|discriminate].
+      + cbn [bs_printed]. fold (map bs_printed (b0 :: bs')). rewrite Hm. reflexivity.
+    - cbn [shape_ok] in Hshape. destruct Hshape as (s & ->).
+      destruct (body_structure d s) as [b'|] eqn:Es; [|discriminate].
+      cbn [option_map] in Hb. injection Hb as <-. cbn [bs_printed]. f_equal.
+      inversion HF as [|? ? Hs _]; subst. apply Hs. exact Es.
+  Qed.
 End Structure.
 
 (* ------------------------------------------------------------ COPY / MOVE *)
@@ -454,17 +499,22 @@ Proof.
 Qed.
 
 Lemma st_part_octets d ct c b p n :
-  parse d ct = Ok c -> no_rfc822 c -> body_structure d c = Some b ->
-  In (p, n) (rfc_parts b) ->
+  parse d ct = Ok c -> no_rfc822 c -> no_empty_multi c -> body_structure d c = Some b ->
+  In (p, n) (rfc_parts (bs_printed b)) ->
   n = length (fetch_mime d c p) + length (fetch_body d c p).
-Proof. intros H. apply part_octets_rfc. eapply parse_wf; eauto. Qed.
+Proof.
+  intros H Hno Hne Hb Hin. assert (Hwf := parse_wf d ct c H).
+  rewrite (bs_printed_id d c Hwf Hne b Hb) in Hin.
+  eapply part_octets_rfc; eauto.
+Qed.
 
 Lemma st_part_octets_no_header d ct c b p n :
-  parse d ct = Ok c -> no_rfc822 c -> body_structure d c = Some b ->
-  In (p, n) (rfc_parts b) -> fetch_mime d c p = [] ->
+  parse d ct = Ok c -> no_rfc822 c -> no_empty_multi c -> body_structure d c = Some b ->
+  In (p, n) (rfc_parts (bs_printed b)) -> fetch_mime d c p = [] ->
   n = length (fetch_body d c p).
 Proof.
-  intros H Hno Hb Hin Hm. rewrite (st_part_octets d ct c b p n H Hno Hb Hin), Hm. reflexivity.
+  intros H Hno Hne Hb Hin Hm.
+  rewrite (st_part_octets d ct c b p n H Hno Hne Hb Hin), Hm. reflexivity.
 Qed.
 
 Lemma st_part_octets_walk d ct c p s n :
@@ -478,10 +528,29 @@ Definition wit_hdr : bytes := [97; 58; 98; 10; 10; 99]%N.
 
 Lemma st_part_octets_refuted :
   exists d ct c b p n,
-    parse d ct = Ok c /\ no_rfc822 c /\ body_structure d c = Some b
-    /\ In (p, n) (rfc_parts b) /\ n <> length (fetch_body d c p).
+    parse d ct = Ok c /\ no_rfc822 c /\ no_empty_multi c /\ body_structure d c = Some b
+    /\ In (p, n) (rfc_parts (bs_printed b)) /\ n <> length (fetch_body d c p).
 Proof.
   exists wit_hdr, (fun _ => CtText). eexists. eexists. exists [1], 6.
+  split; [vm_compute; reflexivity|].
+  split; [constructor; [discriminate|constructor]|].
+  split; [constructor; [discriminate|constructor]|].
+  split; [vm_compute; reflexivity|].
+  split; [left; reflexivity|]. vm_compute. discriminate.
+Qed.
+
+(* "C:m\n\nx" with the header deciding multipart but no usable boundary: no
+   sub-part is parsed, an empty text part 1 (0 octets) is printed, BODY[1] is
+   the 1-octet body of the message itself *)
+Definition wit_empty_multi : bytes := [67; 58; 109; 10; 10; 120]%N.
+
+Lemma st_empty_multipart_refuted :
+  exists d ct c b p n,
+    parse d ct = Ok c /\ no_rfc822 c /\ body_structure d c = Some b
+    /\ In (p, n) (rfc_parts (bs_printed b))
+    /\ n <> length (fetch_mime d c p) + length (fetch_body d c p).
+Proof.
+  exists wit_empty_multi, (fun _ => CtMulti []). eexists. eexists. exists [1], 0.
   split; [vm_compute; reflexivity|].
   split; [constructor; [discriminate|constructor]|].
   split; [vm_compute; reflexivity|].
@@ -500,11 +569,13 @@ Definition wit_rfc_ct (hl : list line) : ctype :=
 
 Lemma st_part_numbering_refuted :
   exists d ct c b p n,
-    parse d ct = Ok c /\ body_structure d c = Some b /\ In (p, n) (rfc_parts b)
+    parse d ct = Ok c /\ no_empty_multi c /\ body_structure d c = Some b
+    /\ In (p, n) (rfc_parts (bs_printed b))
     /\ n <> length (fetch_mime d c p) + length (fetch_body d c p).
 Proof.
   exists wit_rfc, wit_rfc_ct. eexists. eexists. exists [1], 11.
   split; [vm_compute; reflexivity|].
+  split; [repeat (constructor; try discriminate)|].
   split; [vm_compute; reflexivity|].
   split; [left; reflexivity|]. vm_compute. discriminate.
 Qed.
@@ -543,7 +614,7 @@ Definition ex_multi_ct (hl : list line) : ctype :=
   end.
 
 Lemma ex_multi_ok :
-  exists c, parse ex_multi ex_multi_ct = Ok c /\ no_rfc822 c
+  exists c, parse ex_multi ex_multi_ct = Ok c /\ no_rfc822 c /\ no_empty_multi c
             /\ body_structure ex_multi c = Some (BsMulti [BsText 8 2%Z; BsText 2 0%Z])
             /\ rfc_parts (BsMulti [BsText 8 2%Z; BsText 2 0%Z]) = [([1], 8); ([2], 2)]
             /\ fetch_body ex_multi c [1] = [104; 105; 10]%N
@@ -551,6 +622,7 @@ Lemma ex_multi_ok :
             /\ fetch_body ex_multi c [2] = [121; 10]%N.
 Proof.
   eexists. split; [vm_compute; reflexivity|].
+  split; [repeat (constructor; try discriminate)|].
   split; [repeat (constructor; try discriminate)|].
   repeat split; vm_compute; reflexivity.
 Qed.
